@@ -58,6 +58,8 @@ def generate(tier, seed):
     for a in args + STRS:
         reqs += ["(prin1-to-string %s)" % a, "(print %s)" % a, "(princ %s)" % a]
         reqs += ["(prin1-to-string (list %s))" % a, '(format "%%S" %s)' % a, '(format "%%s" (list %s 1))' % a, '(format "%%S|%%s" (list %s) %s)' % (a, a)]
+    for v in ["2.5", "-1", "0", "9223372036854775806", "9223372036854775807", "\"s\"", "nil", "t", "'(1)", "1.0", "(expt 10.0 400)"]:
+        reqs += ["(progn (setq gensym-counter %s) (list (gensym) (gensym) (gensym \"q\") gensym-counter))" % v, "(let ((gensym-counter %s)) (let ((a (gensym)) (b (gensym))) (list a b (eq a b) (equal (format \"%%s\" a) (format \"%%s\" b)))))" % v]
     reqs += ['(list (eq (make-symbol ":k") :k) (eq (make-symbol ":k") (make-symbol ":k")) (eq (make-symbol ":k") (intern ":k")) (keywordp (make-symbol ":k")) (make-symbol ":k"))',
              '(progn (setq gensym-counter 7) (list (eq (gensym ":p") (intern ":p7")) (eq (gensym ":p") :p8) (gensym ":p") gensym-counter))',
              '(list (eq (make-symbol "nil") nil) (eq (make-symbol "t") t) (null (make-symbol "nil")) (eq (make-symbol "") (intern "")) (eq (make-symbol "car") (quote car)))',
